@@ -1263,7 +1263,8 @@ class FitBase(FileIOMixin, object):
         _result_dict["ndf"] = _ndf
         _gof = self.goodness_of_fit
         _result_dict["goodness_of_fit"] = _gof
-        _result_dict["gof/ndf"] = _gof / _ndf if _gof is not None else _gof
+        # not defined without degrees of freedom (as many parameters as data points)
+        _result_dict["gof/ndf"] = _gof / _ndf if _gof is not None and _ndf != 0 else None
         _result_dict["chi2_probability"] = self.chi2_probability
         _result_dict["parameter_values"] = self.parameter_name_value_dict
         if _result_dict["did_fit"]:
